@@ -20,7 +20,10 @@ Step(s, e) ==
     IF e.e = "call" /\ ~e.world /\ Has(e, "key") /\ e.key = s.key /\ e.api \in {"set", "put", "get", "touch", "ensure"} THEN
         [s EXCEPT !.n = @ + 1,
                   !.open = Put(@, e.p, [id |-> s.n + 1, call |-> e.seq, ret |-> 0, api |-> e.api,
-                                         val |-> IF Has(e, "val") THEN e.val ELSE "", res |-> "?", stage |-> 1])]
+                                         val |-> IF Has(e, "val") THEN e.val ELSE "", res |-> "?", stage |-> 1, faulted |-> FALSE])]
+    \* an injected failure inside an open operation: that operation (only) may report an error
+    ELSE IF e.e = "sys" /\ Has(e, "inj") /\ e.p \in DOMAIN s.open /\ s.open[e.p].ret = 0 THEN
+        [s EXCEPT !.open = Put(@, e.p, [s.open[e.p] EXCEPT !.faulted = TRUE])]
     ELSE IF e.e = "ret" /\ e.p \in DOMAIN s.open /\ s.open[e.p].ret = 0 /\ e.api = s.open[e.p].api THEN
         LET o == s.open[e.p]
             res == IF ~e.ok THEN "error" ELSE IF e.res \in {"none", "true", "false", "unit"} THEN e.res ELSE "handle"
@@ -34,7 +37,7 @@ Step(s, e) ==
     ELSE s
 
 \* set/put return "unit": nothing to compare
-Norm(ops) == {IF o.api \in {"set", "put"} THEN [o EXCEPT !.res = "unit"] ELSE o : o \in ops}
+Norm(ops) == {IF o.api \in {"set", "put"} /\ o.res # "error" THEN [o EXCEPT !.res = "unit"] ELSE o : o \in ops}
 
 Init == l = 1 /\ st = [job |-> "", run |-> 0, key |-> "", open |-> <<>>, ops |-> {}, n |-> 0, lastp |-> <<>>]
 Next ==
@@ -44,7 +47,7 @@ Next ==
        IF e.e = "reset" THEN st' = Fresh(e)
        ELSE IF e.e = "endrun" THEN
             LET ops == Norm(st.ops)
-                bad == {o \in ops : o.res = "error"}
+                bad == {o \in ops : o.res = "error" /\ ~o.faulted}
                 ok == bad = {} /\ Linearizable(ops, "none") /\ EnsureAgree(ops, "none")
             IN /\ (~ok => PrintT(<<"VERDICT", ToJson([job |-> st.job, run |-> st.run,
                                   viol |-> {<<0, IF bad # {} THEN "OpError" ELSE "Linearizable">>}, fsmis |-> {}, ops |-> ops])>>))
